@@ -457,8 +457,7 @@ def c09(F: Facts):
 def c10(F: Facts):
     out = []
     evs = F.final.get('events', {})
-    stall_slack = sum(x[1] for x in F.sc.get('faults', {}).get('stalls', [])) + F.sc.get('burn_slack', 0.0)
-    timeouts = F.sc.get('_timeouts', {})
+    stall_slack = sum(x[1] for x in F.sc.get('faults', {}).get('stalls', [])) + F.burn_total
     # per activation deadline
     cancelled_at = collections.defaultdict(list)  # t -> acts cancelled at deadline
     info = {}
